@@ -1217,6 +1217,42 @@ def rule_content_types(ctx):
                   ctx.index.cls("constants:ContentType").loc() if hasattr(ctx.index.cls("constants:ContentType"), "loc") else "tlslite/constants.py")
 
 
+def rule_format_args(ctx):
+    """FORMAT: an error path must produce its alert, not a TypeError: a `"... %s ..." % x` with ONE
+    conversion whose right operand is a protocol version (a 2-tuple: client_version, server_version,
+    version, minVersion, maxVersion, real_version) raises "not all arguments converted" instead of
+    formatting - the operand has to be wrapped (`str(x)` / `(x,)`).  Checked at every `%` formatting in the
+    protocol modules."""
+    import re as _re
+    R = "C08.FORMAT"
+    TUPLES = ("client_version", "server_version", "version", "minVersion", "maxVersion", "real_version",
+              "protocol_version", "high_ver")
+    n = 0
+    for fi in ctx.index.all_functions():
+        if fi.module.name not in ("tlsconnection", "tlsrecordlayer", "recordlayer", "keyexchange", "messages", "extensions"):
+            continue
+        for x in own_nodes(fi.node):
+            if not (isinstance(x, ast.BinOp) and isinstance(x.op, ast.Mod) and isinstance(x.left, ast.Constant)
+                    and isinstance(x.left.value, str)):
+                continue
+            specs = _re.findall(r"%(?!%)[#0 +-]*\d*(?:\.\d+)?[sdrxXif]", x.left.value)
+            n += 1
+            r = x.right
+            if isinstance(r, ast.Tuple):
+                ok = len(r.elts) == len(specs)
+                why = "%d conversions, %d arguments" % (len(specs), len(r.elts))
+            else:
+                last = (attr_chain(r) or "").split(".")[-1]
+                ok = not (len(specs) == 1 and last in TUPLES)
+                why = "`%s` is a version tuple: `%%` unpacks it into two arguments for one conversion" % norm(r)
+            ctx.check(R, ok, fi.qname, x, "formatting `%s` raises TypeError instead of producing the error text (%s): "
+                      "the alert of this error path is never sent" % (norm(x)[:80], why), fi.loc(x),
+                      what="%s: `%s` formats" % (fi.short, norm(x)[:50]))
+    if n < 3:
+        raise AnalysisError("%s: only %d %%-formattings found" % (R, n))
+
+
+RULES.insert(9, ("C08.FORMAT", "quick", rule_format_args))
 RULES.insert(9, ("C08.CONTENT-TYPES", "quick", rule_content_types))
 
 
